@@ -347,7 +347,7 @@ def main(argv=None):
                 if ob.kind == "ch" and ob.reach:
                     tasks.append(Task(ob, src, prop, tier_name, p, "reach", extra))
                 for f in pf:
-                    if ob.kind == "ch" and f.get("witness") is not None:
+                    if ob.kind == "ch" and f.get("witness") is not None and f.get("witness_param") in (None, p):
                         tasks.append(Task(ob, src, prop, tier_name, p, "witness", finding=f))
 
     # long obligations first
